@@ -18,9 +18,12 @@ def alphabet_of(subj):
     return list("lmhn") if subj.kind == "manager" else list("abcd")
 
 
-def chunks_of(subj, max_chunk):
+def chunks_of(subj, max_chunk, with_empty=False):
     a = alphabet_of(subj)
-    return [c for k in range(1, max_chunk + 1) for c in itertools.product(a, repeat=k)]
+    out = [c for k in range(1, max_chunk + 1) for c in itertools.product(a, repeat=k)]
+    if with_empty and subj.kind == "manager":
+        out.append(())  # the budget managers accept an empty chunk (the strategies document a minimum of one candidate)
+    return out
 
 
 def fresh(subj, budget, rng_mode, seed=0):
@@ -61,7 +64,7 @@ def bfs(subj, budget, rng_mode, max_chunk, horizon, max_states, util_values, on_
     on_transition(pre, chunk, tape, post, result, hist, n) where result is
         ('ok', idx, ut) | ('exc', where, exception); returns False to prune
     Returns dict(states=, transitions=, capped=)."""
-    ops = chunks_of(subj, max_chunk)
+    ops = chunks_of(subj, max_chunk, with_empty=True)
     obj0 = fresh(subj, budget, rng_mode, seed)
     frontier = deque([(obj0, (), 0)])
     seen = {fp_merge(obj0)}
@@ -94,8 +97,8 @@ def bfs(subj, budget, rng_mode, max_chunk, horizon, max_states, util_values, on_
                 keep = True
                 if on_transition:
                     keep = on_transition(obj, chunk, tp, o, res, h2, n) is not False
-                if res[0] != "ok" or not keep:
-                    continue
+                if res[0] != "ok" or not keep or len(chunk) == 0:
+                    continue  # an empty chunk is judged by the callbacks; it must not create states (it has to be a no-op)
                 k = fp_merge(o)  # values + sharing structure (aliased attributes have different futures)
                 if k not in seen:
                     if len(seen) >= max_states:
